@@ -492,6 +492,7 @@ func Generate(repoDir, outDir, shimDir string) (overlayPath string, st Stats, er
 	// address is taken outside init (they are reset between executions unless
 	// init assigns them)
 	atomicStructs = map[types.Object]bool{}
+	sharedStructs = map[types.Object]bool{}
 	atomicFields = map[types.Object]bool{}
 	// a select statement anywhere switches the channel model off altogether: the
 	// operations inside its cases cannot be rewritten, and a channel used both
@@ -581,6 +582,15 @@ func Generate(repoDir, outDir, shimDir string) (overlayPath string, st Stats, er
 					if x.Op == token.AND {
 						if v := rootVar(x.X); v != nil && !inRanges(x.Pos(), inits) {
 							mutableVars[v] = true
+							// `p := &global` and then p.field: the accesses go through the
+							// pointer, so the fields of that struct type are hooked
+							if id, ok := x.X.(*ast.Ident); ok && info.Uses[id] == types.Object(v) {
+								if n, ok := v.Type().(*types.Named); ok && n.Obj().Pkg() != nil && instrumentedPkg(n.Obj().Pkg().Path()) {
+									if _, isStruct := n.Underlying().(*types.Struct); isStruct {
+										sharedStructs[n.Obj()] = true
+									}
+								}
+							}
 						}
 					}
 				case *ast.AssignStmt:
@@ -977,6 +987,12 @@ var chanModelOn = true
 
 var atomicStructs = map[types.Object]bool{}
 
+// sharedStructs: struct types of package-level variables whose address is
+// taken outside init (`w := &lastResult`): what is then read and written
+// through the pointer is that variable, so plain fields of the type are hooked
+// like the fields of lock-carrying structs.
+var sharedStructs = map[types.Object]bool{}
+
 // atomicFields: the fields themselves (accessed through sync/atomic, not hooked as plain memory).
 var atomicFields = map[types.Object]bool{}
 
@@ -1028,7 +1044,7 @@ func (rw *rewriter) guardedField(e ast.Expr) bool {
 	if !ok || n.Obj().Pkg() == nil || !instrumentedPkg(n.Obj().Pkg().Path()) {
 		return false
 	}
-	if _, isStruct := n.Underlying().(*types.Struct); !isStruct || !containsSync(n) {
+	if _, isStruct := n.Underlying().(*types.Struct); !isStruct || !(containsSync(n) || sharedStructs[n.Obj()]) {
 		return false
 	}
 	if containsSync(s.Obj().Type()) || atomicFields[s.Obj()] {
